@@ -12,3 +12,9 @@ pub open spec fn rc_accept(rc: RangeConstraint, params: RangeConstraintParameter
     &&& forall|j: int| 0 <= j < 9 ==> sp_accept(#[trigger] (*rc.digit_proofs)@[j], params.public_key, c)
     &&& wsum(s_int(128), rc_zs(rc), 9) == expected
 }
+
+/// every digit signature i verifies on the digit i under the parameters' own key
+pub open spec fn range_params_ok(p: RangeConstraintParameters) -> bool {
+    forall|i: int| 0 <= i < 128 ==> ps_valid(p.public_key.g2, p.public_key.x2, (*p.public_key.y2s)@, seq![s_int(i)],
+        #[trigger] (*p.digit_signatures)@[i].sigma1, (*p.digit_signatures)@[i].sigma2)
+}
